@@ -49,7 +49,81 @@ def make_scenarios(rng, rounds, mode_pool):
                                nowarn=rng.random() < 0.3, quiet=0, kind="reg", smode=rng.choice([0o644, 0o664, 0o755, 0o647, 0o674, 0o657]),
                                nlink=1, uidSame=us, gidSame=gs, dstKind="none", nameOK=True, payloadOK=True,
                                ownOK=us, grpOK=gs, chmodOK=True, root=False))
+    for x in sc:
+        x.update(invocation(x, rng))
+    # every program name x every option source (-S and -k given there; decoys elsewhere), on a plain regular file
+    for rnd in range(rounds):
+        for prog in ("xz", "unxz", "xzcat", "lzma", "unlzma", "lzcat"):
+            for place in ("dflt", "xzopt", "cmd"):
+                x = dict(id=len(sc), opmode="compress" if prog in ("xz", "lzma") else "decompress", keep=rng.random() < 0.5, force=False,
+                         stdout=prog in CATS, nowarn=False, quiet=0, kind="reg", smode=rng.choice([0o644, 0o600, 0o755]), nlink=1,
+                         uidSame=True, gidSame=True, dstKind="none", nameOK=True, payloadOK=True, ownOK=True, grpOK=True, chmodOK=True, root=True)
+                x.update(invocation(x, rng, prog=prog, place=place))
+                sc.append(x)
     return sc
+
+CATS = ("xzcat", "lzcat")
+DEFAULT_DECOMPRESS = ("unxz", "xzcat", "unlzma", "lzcat")
+SUFFIXES = [".foo", "x", "-s", ".b"]
+
+def invocation(sc, rng, prog=None, place=None):
+    """Turn the wanted flags of a scenario into the way xz is invoked: program name (xz, unxz, xzcat, lzma, unlzma,
+    lzcat), and option tokens spread over XZ_DEFAULTS, XZ_OPT and the command line, with overridden decoys.
+    The effective options are computed by spec/Args.tla, not here."""
+    comp = sc["opmode"] == "compress"
+    cands = ["xz"]
+    if not comp and sc["stdout"]:
+        cands += ["xzcat", "lzcat"]
+    if not comp:
+        cands += ["unxz", "unlzma"]
+    if comp:
+        cands += ["lzma"]
+    prog = prog or (rng.choice(cands[1:]) if rng.random() < 0.4 else "xz")
+    toks = []
+    default_comp = prog not in DEFAULT_DECOMPRESS
+    if comp != default_comp or rng.random() < 0.4:
+        toks.append({"o": "z" if comp else "d"})
+    if sc["keep"]: toks.append({"o": "k"})
+    if sc["force"]: toks.append({"o": "f"})
+    if sc["stdout"] and (prog not in CATS or rng.random() < 0.2): toks.append({"o": "c"})
+    if sc["nowarn"]: toks.append({"o": "Q"})
+    toks += [{"o": "q"}] * sc["quiet"]
+    fmt = "lzma" if prog in ("lzma", "unlzma", "lzcat") else "auto"
+    if rng.random() < 0.25:
+        fmt = rng.choice(["xz", "lzma"]); toks.append({"o": "F", "v": fmt})
+    custom = None
+    if place or rng.random() < 0.35:
+        custom = rng.choice(SUFFIXES); toks.append({"o": "S", "v": list(custom)})
+    src = {"dflt": [], "xzopt": [], "cmd": []}
+    where = {}
+    for t in toks:
+        w = place if (place and t["o"] in ("S", "k")) else rng.choice(["cmd", "cmd", "cmd", "xzopt", "dflt"])
+        src[w].append(t); where[t["o"]] = w
+    order = ["dflt", "xzopt", "cmd"]
+    # decoys in an earlier source: the opposite mode, another suffix, another format
+    for o, mk in (("z", lambda: {"o": "d" if comp else "z"}), ("d", lambda: {"o": "d" if comp else "z"}),
+                  ("S", lambda: {"o": "S", "v": list(rng.choice([x for x in SUFFIXES if x != custom]))}),
+                  ("F", lambda: {"o": "F", "v": "xz" if fmt == "lzma" else "lzma"})):
+        if o in where and order.index(where[o]) > 0 and rng.random() < 0.5:
+            src[rng.choice(order[:order.index(where[o])])].insert(0, mk())
+    # source name aiming at the wanted "has a usable target name"
+    nat = ".lzma" if fmt == "lzma" else ".xz"
+    if comp:
+        name = "f" if sc["nameOK"] else "f" + (custom if custom and rng.random() < 0.5 else nat)
+    else:
+        name = ("f" + (custom if custom and rng.random() < 0.5 else rng.choice([nat, ".txz", ".lz"]))) if sc["nameOK"] else rng.choice(["f", "f.bar"])
+    return dict(prog=prog, dflt=src["dflt"], xzopt=src["xzopt"], cmd=src["cmd"], srcName=list(name))
+
+def tok_args(toks):
+    out = []
+    for t in toks:
+        if t["o"] == "S":
+            out.append("--suffix=" + "".join(t["v"]))
+        elif t["o"] == "F":
+            out.append("--format=" + t["v"])
+        else:
+            out.append("-" + t["o"])
+    return out
 
 LINE = re.compile(rb'^(\d+)\s+(\w+)\((.*)\)\s+= (-?\d+|\?)(.*)$')
 
@@ -114,16 +188,21 @@ def _feed_fifo(path, data, proc):
         os.close(fd)
         return
 
-def run_scenario(ctx, xz, sc, pred, payload_xz, idx):
+def run_scenario(ctx, bins, sc, pred, payloads, idx):
+    """bins: dict name -> path (xz and the names it is installed under); payloads: {"xz": .., "lzma": ..}"""
     d = os.path.join(ctx.workdir, "files", "s%d" % idx)
     os.makedirs(d)
+    # the effective options are the model's (spec/Args.tla), the wanted ones were only hints for the generator
+    eff = pred["eff"]
+    sc = dict(sc, opmode=eff["mode"], keep=eff["keep"], force=eff["force"], stdout=eff["stdout"], nowarn=eff["nowarn"],
+              quiet=eff["quiet"], nameOK=pred["nameOK"])
     comp = sc["opmode"] == "compress"
+    src = "".join(sc["srcName"])
+    dst = "".join(pred["dstName"]) if pred["nameOK"] else src + (".xz" if comp else ".out")
     if comp:
-        src, dst = ("f", "f.xz") if sc["nameOK"] else ("f.xz", "f.xz.xz")
         data = PLAIN
     else:
-        src, dst = ("f.xz", "f") if sc["nameOK"] else ("f", "f.out")
-        data = payload_xz if sc["payloadOK"] else b"this is not a compressed file at all\n" * 3
+        data = payloads["lzma" if eff["fmt"] == "lzma" else "xz"] if sc["payloadOK"] else b"this is not a compressed file at all\n" * 3
     sp, dp = os.path.join(d, src), os.path.join(d, dst)
     real = sp            # the inode that carries mode/owner/times
     kind = sc["kind"]
@@ -154,9 +233,7 @@ def run_scenario(ctx, xz, sc, pred, payload_xz, idx):
     sgid = me_g if sc["gidSame"] else (0 if nonroot else SRC_GID)
     if nonroot:
         os.chown(d, NOBODY, NOBODY)
-        xz_run = os.path.join(ctx.workdir, "xz-copy")
-    else:
-        xz_run = xz
+    xz_run = bins[sc["prog"]]
     if real:
         os.chown(real, suid, sgid)
         os.chmod(real, sc["smode"])
@@ -182,15 +259,18 @@ def run_scenario(ctx, xz, sc, pred, payload_xz, idx):
         argv += ["-e", "inject=fchown:error=EPERM:when=2"]
     if not sc["chmodOK"]:
         argv += ["-e", "inject=fchmod:error=EPERM:when=1"]
-    argv += [xz_run, "-z" if comp else "-d", "-0"]
-    argv += (["-k"] if sc["keep"] else []) + (["-f"] if sc["force"] else []) + (["-c"] if sc["stdout"] else [])
-    argv += (["-Q"] if sc["nowarn"] else []) + ["-q"] * sc["quiet"] + ["--", src]
+    argv += [xz_run, "-0"] + tok_args(sc["cmd"]) + ["--", src]
+    env = U.tool_env()
+    if sc["dflt"]:
+        env["XZ_DEFAULTS"] = " ".join(tok_args(sc["dflt"]))
+    if sc["xzopt"]:
+        env["XZ_OPT"] = "  ".join(tok_args(sc["xzopt"])) + " "
     old_umask = os.umask(0o022)
     try:
         def drop():
             os.setgroups([]); os.setgid(NOBODY); os.setuid(NOBODY)
         p = subprocess.Popen(argv, cwd=d, stdin=subprocess.DEVNULL, stdout=subprocess.PIPE, stderr=subprocess.PIPE,
-                             env=U.tool_env(), preexec_fn=drop if nonroot else None)
+                             env=env, preexec_fn=drop if nonroot else None)
         th = None
         if kind == "fifo":
             th = threading.Thread(target=_feed_fifo, args=(sp, data, p)); th.start()
@@ -207,14 +287,15 @@ def run_scenario(ctx, xz, sc, pred, payload_xz, idx):
     finally:
         os.umask(old_umask)
     calls, dfd = parse_strace(os.path.join(d, "strace.log"), src.encode(), dst.encode())
-    label = "%s:%s%s%s%s" % (sc["opmode"], kind, ":k" if sc["keep"] else "", ":f" if sc["force"] else "", ":c" if sc["stdout"] else "")
+    label = "%s:%s%s%s%s%s%s" % (sc["opmode"], kind, ":k" if sc["keep"] else "", ":f" if sc["force"] else "", ":c" if sc["stdout"] else "",
+                                 "" if sc["prog"] == "xz" else ":as_" + sc["prog"], ":env" if (sc["dflt"] or sc["xzopt"]) else "")
     def bad(what, detail):
         with _LOCK:
             if ("files:%s:%s" % (what, label)) in _SEEN:
                 return
             _SEEN.add("files:%s:%s" % (what, label))
             ctx.violation("files:%s:%s" % (what, label), detail + " | scenario=%s | xz stderr=%r" % (json.dumps(sc), err[:300]),
-                          dict(kind="file_scenario", scenario=sc, predicted=pred, observed_calls=calls, argv=argv[argv.index(xz_run):]))
+                          dict(kind="file_scenario", scenario=sc, predicted=pred, observed_calls=calls, argv=argv[argv.index(xz_run):], env={k: env.get(k) for k in ("XZ_DEFAULTS", "XZ_OPT")}))
     # ---- system calls
     want = pred["sys"]
     got_cmp = []
@@ -282,7 +363,7 @@ def run_scenario(ctx, xz, sc, pred, payload_xz, idx):
                 bad("target_times", "target times %d/%d, source %d/%d" % (after_dst["atime_ns"], after_dst["mtime_ns"], ATIME_NS, MTIME_NS))
             content = open(dp, "rb").read()
             if comp:
-                ret, dec, _ = U.libdecode(content, "stream")
+                ret, dec, _ = U.libdecode(content, "auto")
                 if ret != "STREAM_END" or dec != PLAIN:
                     bad("target_content", "compressed target does not decode to the source (%s)" % ret)
             elif content != PLAIN:
@@ -295,7 +376,7 @@ def run_scenario(ctx, xz, sc, pred, payload_xz, idx):
     if sc["stdout"]:
         if coded:
             if comp:
-                ret, dec, _ = U.libdecode(out, "stream")
+                ret, dec, _ = U.libdecode(out, "auto")
                 okc = ret == "STREAM_END" and dec == data
             else:
                 okc = out == (PLAIN if sc["payloadOK"] else data)
